@@ -243,7 +243,10 @@ impl Check for Interval {
                         1 => tau_l <= 4.0,
                         _ => tau_l <= 8.0,
                     };
-                let bound = if p.routine == 0 && p.tol < 1e-8 { 4.0 * p.tol.sqrt() } else { 4.0 * p.tol } + 64.0 * EPS * p.length + exact_floor;
+                // (adaptive Simpson on its exact class, polynomials of degree <= 5: the panel tolerances add up to the
+                // tolerance, so the multiple is 1 - observed at most 0.67; a multiple of 4 hid a child panel that inherits
+                // its parent's tolerance)
+                let bound = if p.routine == 0 && p.tol < 1e-8 { 4.0 * p.tol.sqrt() } else if p.routine == 2 { p.tol } else { 4.0 * p.tol } + 64.0 * EPS * p.length + exact_floor;
                 o.metric(&format!("{}-error/bound", ROUTINES[p.routine]), if claimed { err / bound } else { 0.0 });
                 if claimed && !(err <= bound) {
                     o.viol(&subj, "ok-result-within-tolerance", format!("{}: got {} exact {} (error {:e}, bound {:e})", ctx(), v, exact, err, bound));
@@ -617,6 +620,83 @@ impl Check for ComplexMixtures {
     }
 }
 
+// ------------------------------------------------------------------ tanh-sinh on a dense oscillatory lattice
+#[derive(Serialize, Deserialize, Clone, Debug)]
+pub struct DensePt {
+    pub w: f64,
+    pub phi: f64,
+    pub c: f64,
+    pub centre: f64,
+    pub length: f64,
+    pub tol: f64,
+}
+pub struct TanhSinhDense;
+/// multiple of the tolerance allowed on this (wider) class: the stopping heuristic of tanh-sinh compares level
+/// differences and is only asymptotically reliable; worst observed on the repaired tree is reported as a metric
+pub const K_DENSE: f64 = 4.0;
+impl Check for TanhSinhDense {
+    type P = DensePt;
+    fn name(&self) -> &'static str {
+        "tanh-sinh-dense-lattice"
+    }
+    fn rule(&self) -> String {
+        format!("tanh-sinh on sin(w x + phi) + c e^(0.3 x): w in 0.5..=8 step 0.25 x 3 phases x c in {{0, 0.5}} x 5 centres x 4 lengths x 6 tolerances 1e-3..1e-8 (a dense lattice: the level-difference heuristic fails only on rare numerical coincidences between consecutive levels); an Ok result must be within {} tol of the closed-form integral for tol <= 1e-4, and for tol = 1e-3 up to type x half-length 10; signature = (type x half-length class, outcome)", K_DENSE)
+    }
+    fn points(&self, t: Tier) -> Vec<DensePt> {
+        let mut v = vec![];
+        for wi in 2..=32 {
+            let w = 0.25 * wi as f64;
+            for &phi in &[0.0, 0.7, 1.9] {
+                for &c in &[0.0, 0.5] {
+                    for &centre in &[-3.0, -1.0, 0.0, 1.0, 3.0] {
+                        for &length in &[1.0, 2.0, 3.0, 4.0] {
+                            for &tol in &[1e-3, 1e-4, 1e-5, 1e-6, 1e-7, 1e-8] {
+                                if t == Tier::Quick && (wi + (centre as i32 + 3) as usize + length as usize) % 2 == 1 {
+                                    continue;
+                                }
+                                v.push(DensePt { w, phi, c, centre, length, tol });
+                            }
+                        }
+                    }
+                }
+            }
+        }
+        v
+    }
+    fn run(&self, p: &DensePt) -> Outcome {
+        let mut o = Outcome::new();
+        let (lo, hi) = (p.centre - 0.5 * p.length, p.centre + 0.5 * p.length);
+        let (w, phi, c) = (p.w, p.phi, p.c);
+        let f = move |x: f64| (w * x + phi).sin() + c * (0.3 * x).exp();
+        let anti = |x: f64| -(w * x + phi).cos() / w + c * (0.3 * x).exp() / 0.3;
+        let exact = anti(hi) - anti(lo);
+        let res = vcore::guard(|| integrate::<f64, _>(lo, hi, f, p.tol));
+        let tau_l = p.w * 0.5 * p.length;
+        let class = match res {
+            Err(m) => {
+                o.viol("integrate::integrate", "never-panics", format!("{:?}: {}", p, m));
+                "panic"
+            }
+            Ok(Err(_)) => "err",
+            Ok(Ok(v)) => {
+                let err = (v - exact).abs();
+                let bound = K_DENSE * p.tol + 64.0 * EPS * p.length * 3.0;
+                // reliable class (explicit): tolerances up to 1e-4 for every type x half-length up to 16, and 1e-3 up to
+                // type x half-length 10: at tol 1e-3 and type x half-length 12.5 the level differences of the repaired
+                // library coincide by accident (error 43 tol) - the asymptotic heuristic is not reliable there
+                let claimed = p.tol <= 1e-4 * (1.0 + 1e-9) || tau_l <= 10.0;
+                o.metric("tanh-sinh-dense-error/tol (claimed class)", if claimed { err / p.tol } else { 0.0 });
+                if claimed && !(err <= bound) {
+                    o.viol("integrate::integrate", "ok-result-within-tolerance", format!("{:?} on [{}, {}]: got {} exact {} (error {:.1} x tol, allowed {})", p, lo, hi, v, exact, err / p.tol, K_DENSE));
+                }
+                "ok"
+            }
+        };
+        o.sig = format!("tau-l{}|{}", if tau_l <= 4.0 { "<=4" } else if tau_l <= 8.0 { "<=8" } else { "<=16" }, class);
+        o
+    }
+}
+
 // ------------------------------------------------------------------ Romberg
 #[derive(Serialize, Deserialize, Clone, Debug)]
 pub struct RomPt {
@@ -643,13 +723,54 @@ fn reference_romberg(f: &dyn Fn(f64) -> f64, a: f64, b: f64, n: usize) -> f64 {
     }
     r[n - 1][n - 1]
 }
+impl Romberg {
+    /// polynomial with zeros at the 2^j + 1 trapezoid nodes, times (x - c)^extra with c = lo + 0.3 (hi - lo); the exact
+    /// integral comes from the expansion in powers of x - midpoint, integrated term by term
+    fn run_vanishing(&self, p: &RomPt, lo: f64, hi: f64) -> Outcome {
+        let mut o = Outcome::new();
+        let (j, extra) = ((p.k - 100) % 10, (p.k - 100) / 10);
+        let panels = 1usize << j;
+        let nodes: Vec<f64> = (0..=panels).map(|i| lo + (hi - lo) * i as f64 / panels as f64).collect();
+        let c = lo + 0.3 * (hi - lo);
+        let nd = nodes.clone();
+        let f = move |x: f64| nd.iter().map(|z| x - z).product::<f64>() * (x - c).powi(extra as i32) * 8.0;
+        // exact integral: expand in powers of u = x - m (m the midpoint) and integrate term by term over [-h, h]
+        let (h, m) = (0.5 * (hi - lo), 0.5 * (hi + lo));
+        let mut coef = vec![8.0f64];
+        let mut roots: Vec<f64> = nodes.iter().map(|z| z - m).collect();
+        roots.extend(std::iter::repeat(c - m).take(extra as usize));
+        for r in roots {
+            let mut next = vec![0.0; coef.len() + 1];
+            for (k, ck) in coef.iter().enumerate() {
+                next[k + 1] += ck;
+                next[k] -= ck * r;
+            }
+            coef = next;
+        }
+        let exact: f64 = coef.iter().enumerate().filter(|(k, _)| k % 2 == 0).map(|(k, ck)| 2.0 * ck * h.powi(k as i32 + 1) / (k as f64 + 1.0)).sum();
+        let res = vcore::guard(|| integrate_fixed::<f64, _>(lo, hi, &f, p.n));
+        let ctx = || format!("{:?} on [{}, {}]: zeros at the {} trapezoid nodes x (x - {})^{}", p, lo, hi, panels + 1, c, extra);
+        match res {
+            Err(m) => o.viol("integrate::integrate_fixed", "never-panics", format!("{}: {}", ctx(), m)),
+            Ok(Err(e)) => o.viol("integrate::integrate_fixed", "ok", format!("{}: Err({})", ctx(), e)),
+            Ok(Ok(v)) => {
+                let floor = 256.0 * EPS * (1u64 << p.n) as f64 * (hi - lo) * 8.0 * (hi - lo).max(1.0).powi(panels as i32 + 1 + extra as i32);
+                if !((v - exact).abs() <= floor + 1e-12 * exact.abs()) {
+                    o.viol("integrate::integrate_fixed", "exact-for-degree<=2n-1", format!("{}: got {:e} exact {:e}", ctx(), v, exact));
+                }
+            }
+        }
+        o.sig = format!("n{}|node-vanishing-polynomial", p.n);
+        o
+    }
+}
 impl Check for Romberg {
     type P = RomPt;
     fn name(&self) -> &'static str {
         "romberg"
     }
     fn rule(&self) -> String {
-        "integrate_fixed with n = 1..8 rows x every monomial of degree <= 2n-1 (exact up to rounding) and degree 2n (must agree with an independently written Romberg tableau and not be exact) x 5 centres x 2 lengths; signature = (n, degree class)".into()
+        "integrate_fixed with n = 1..8 rows x every monomial of degree <= 2n-1 (exact up to rounding) and degree 2n (must agree with an independently written Romberg tableau and not be exact) x 5 centres x 2 lengths, plus polynomials that vanish at all nodes of the first trapezoid rules (successive tableau entries coincide, the integral does not vanish); signature = (n, degree class)".into()
     }
     fn points(&self, _t: Tier) -> Vec<RomPt> {
         let mut v = vec![];
@@ -658,6 +779,20 @@ impl Check for Romberg {
                 for &centre in &CENTRES {
                     for &length in &[0.5, 2.0] {
                         v.push(RomPt { n, k, centre, length });
+                    }
+                }
+            }
+            // k = 100 + j: the polynomial that vanishes at every node of the trapezoid rule with 2^j panels, times
+            // (x - c) and (x - c)^2: its first j + 1 trapezoid sums are all exactly 0, so successive tableau entries
+            // coincide although the integral is not 0 (an "entries agree, stop" shortcut returns the wrong value)
+            for j in 0..=2u32 {
+                for extra in 1..=2u32 {
+                    if (1usize << j) + 1 + extra as usize <= 2 * n - 1 {
+                        for &centre in &[0.0, 0.5] {
+                            for &length in &[2.0, 1.0] {
+                                v.push(RomPt { n, k: 100 + 10 * extra + j, centre, length });
+                            }
+                        }
                     }
                 }
             }
@@ -670,6 +805,9 @@ impl Check for Romberg {
         let far = lo.abs().max(hi.abs());
         let scale = far.powi(p.k as i32).max(1e-300);
         let k = p.k as i32;
+        if p.k >= 100 {
+            return self.run_vanishing(p, lo, hi);
+        }
         let f = move |x: f64| x.powi(k) / scale;
         let exact = (hi.powi(k + 1) - lo.powi(k + 1)) / (k as f64 + 1.0) / scale;
         let res = vcore::guard(|| integrate_fixed::<f64, _>(lo, hi, f, p.n));
@@ -773,6 +911,7 @@ pub fn main(mut r: Report) -> ! {
     r.run(&Interval);
     r.run(&Weighted);
     r.run(&ComplexMixtures);
+    r.run(&TanhSinhDense);
     r.run(&Romberg);
     r.run(&Rejections);
     r.finish()
